@@ -367,9 +367,12 @@ func knownClassOfTree(c *treeCase, m *model) string {
 		return classF1
 	case m.rebindHit:
 		return classF3
-	case c.Mode == "cli" && c.MainFile != "" && filepath.Clean("./"+c.Cwd) != filepath.Dir(filepath.Clean(c.MainFile)):
+	case c.Mode == "cli" && c.MainFile != "":
+		// the command never rewrites the search entries of the program file:
+		// they are taken relative to the working directory, and "" is dropped
+		sameDir := filepath.Clean("./"+c.Cwd) == filepath.Dir(filepath.Clean(c.MainFile))
 		for _, d := range c.Main.Dirs {
-			if s, ok := searchOf(d.Meta); ok && isRelSearch(s) {
+			if s, ok := searchOf(d.Meta); ok && isRelSearch(s) && (!sameDir || s == "") {
 				return classF2
 			}
 		}
@@ -877,11 +880,16 @@ func resolveCases() []treeCase {
 		path   string // "" = the main program
 		search string // how the directory S is written from there
 	}
-	importers := []importer{{"", rootMark + "/S"}, {"L0/top.jq", "../S"}, {"L1/top/top.jq", "./../../S/"}}
+	importers := []importer{{"", rootMark + "/S"}, {"L0/top.jq", "../S"}, {"L1/top/top.jq", "./../../S/"},
+		// the importing file lives in S itself: every spelling of "my own directory"
+		{"S/top.jq", ""}, {"S/top.jq", "."}, {"S/top.jq", "./"}, {"S/top.jq", "./."}, {"S/top.jq", "sub/.."}}
 	for _, imp := range importers {
 		for _, name := range []string{"b", "a/b"} {
 			for _, kind := range []string{"import", "include", "data"} {
 				for _, withSearch := range []bool{false, true} {
+					if !withSearch && strings.HasPrefix(imp.path, "S/") {
+						continue
+					}
 					ext := ".jq"
 					if kind == "data" {
 						ext = ".json"
@@ -918,6 +926,9 @@ func resolveCases() []treeCase {
 						} else {
 							c.Files = append(c.Files, fileSpec{Path: imp.path, Dirs: []directive{d}, Defs: []defSpec{{Name: "get", Body: []expr{use}}}})
 							c.Main.Dirs = []directive{{Kind: "import", Name: "top", Alias: "t"}}
+							if strings.HasPrefix(imp.path, "S/") {
+								c.Main.Dirs[0].Meta = []metaKV{searchKV(rootMark + "/S")}
+							}
 							c.Query = []expr{{K: "call", S: "t::get"}}
 						}
 						out = append(out, c)
@@ -1025,7 +1036,7 @@ func TestC18(t *testing.T) {
 			}
 		}
 	}
-	rec.Exhaustive(fmt.Sprintf("candidate-subsets(%d cases: 3 importers x 2 names x 3 kinds x with/without search x all subsets of 6/4 candidates)", len(rcs)), complete)
+	rec.Exhaustive(fmt.Sprintf("candidate-subsets(%d cases: 3 importers x 2 names x 3 kinds x with/without search, plus 5 spellings of the importing file's own directory x 2 names x 3 kinds, x all subsets of 6/4 candidates)", len(rcs)), complete)
 
 	// (R1) random trees through the library
 	rec.Rapid(t, "tree", rec.Scale(40000, 600000), func(t *rapid.T) {
